@@ -163,6 +163,42 @@ class _Rename(ast.NodeTransformer):
     visit_ListComp = visit_SetComp = visit_GeneratorExp = visit_DictComp = _comp
 
 
+class _Alpha(ast.NodeTransformer):
+    """comprehension variables (and lambda parameters) of a helper that carry the name of something the caller's
+    arguments mention are given a new name, so that substituting the argument inside does not capture it"""
+
+    def __init__(self, clash: set, suffix: str):
+        self.clash = clash
+        self.suffix = suffix
+        self.did = False
+
+    def _comp(self, n):
+        n = self.generic_visit(n)
+        bound = {x.id for g in n.generators for x in ast.walk(g.target) if isinstance(x, ast.Name)} & self.clash
+        if not bound:
+            return n
+        self.did = True
+        first = n.generators[0].iter          # enclosing scope: not renamed
+        n.generators[0].iter = ast.Constant(value=None)
+        n = _Rename({b: b + self.suffix for b in bound}, {}).generic_visit(n)
+        n.generators[0].iter = first
+        return n
+
+    visit_ListComp = visit_SetComp = visit_GeneratorExp = visit_DictComp = _comp
+
+    def visit_Lambda(self, n):
+        n = self.generic_visit(n)
+        bound = {a.arg for a in n.args.args + n.args.kwonlyargs + n.args.posonlyargs} & self.clash
+        if not bound:
+            return n
+        self.did = True
+        for a in n.args.args + n.args.kwonlyargs + n.args.posonlyargs:
+            if a.arg in bound:
+                a.arg = a.arg + self.suffix
+        n.body = _Rename({b: b + self.suffix for b in bound}, {}).visit(n.body)
+        return n
+
+
 class _Helper:
     def __init__(self, qual: str, node: ast.FunctionDef, cls: Optional[ast.ClassDef]):
         self.qual = qual
@@ -250,9 +286,22 @@ class Inliner:
         return f'__{h.name.strip("_")}{self.counter}'
 
     # -- a helper as an expression ----------------------------------------------------------------------------------
+    def _uncaptured(self, h: _Helper, bind) -> _Helper:
+        free = {y.id for a in bind.values() for y in ast.walk(a) if isinstance(y, ast.Name)}
+        if not free:
+            return h
+        al = _Alpha(free, f'__{h.name.strip("_")}c')
+        node = al.visit(copy.deepcopy(h.node))
+        if not al.did:
+            return h
+        h2 = copy.copy(h)
+        h2.node = node
+        return h2
+
     def as_expr(self, h: _Helper, bind: Dict[str, ast.AST]) -> Optional[ast.AST]:
         if h.is_gen:
             return None
+        h = self._uncaptured(h, bind)
         stored = _stored_names(h.node)
         if stored & set(bind):
             return None       # a parameter is re-bound in the helper: not a pure substitution
@@ -301,6 +350,7 @@ class Inliner:
         """mode: 'assign' (result is the target), 'return', 'drop'"""
         if h.is_gen:
             raise CannotInline('generator')
+        h = self._uncaptured(h, bind)
         sfx = self.fresh(h)
         stored = _stored_names(h.node)
         mapping = {n: n + sfx for n in stored if n in self.caller_names}
@@ -539,7 +589,14 @@ def _max_uses(node, name: str) -> int:
         return 1 if node.id == name and isinstance(node.ctx, ast.Load) else 0
     if isinstance(node, ast.IfExp):
         return _max_uses(node.test, name) + max(_max_uses(node.body, name), _max_uses(node.orelse, name))
-    if isinstance(node, (ast.For, ast.While, ast.ListComp, ast.SetComp, ast.DictComp, ast.GeneratorExp, ast.Lambda)):
+    if isinstance(node, (ast.ListComp, ast.SetComp, ast.DictComp, ast.GeneratorExp)):
+        # the first iterable is evaluated once, in the enclosing scope; everything else once per element
+        first = node.generators[0].iter
+        once = _max_uses(first, name)
+        inner = sum(1 for x in ast.walk(node) if isinstance(x, ast.Name) and x.id == name and isinstance(x.ctx, ast.Load))
+        inner -= sum(1 for x in ast.walk(first) if isinstance(x, ast.Name) and x.id == name and isinstance(x.ctx, ast.Load))
+        return once + 2 * inner
+    if isinstance(node, (ast.For, ast.While, ast.Lambda)):
         inner = sum(1 for x in ast.walk(node) if isinstance(x, ast.Name) and x.id == name and isinstance(x.ctx, ast.Load))
         return 2 * inner
     return sum(_max_uses(ch, name) for ch in ast.iter_child_nodes(node))
